@@ -39,7 +39,7 @@ def work(tier, seed):
             items.append({"blocks": [list(x) for x in bl], "grid": kind, "scalars": gi == 0, "mutated": gi == 0})
         # classes stored in different dtypes, the narrower one unable to hold the other's values (small order types in quick)
         if tier != "quick" or sum(a + c for a, c in bl) <= 4:
-            for kind in ot.MIXED_KINDS[1:]:
+            for kind in ot.MIXED_KINDS[1:] + ["unit"]:
                 items.append({"blocks": [list(x) for x in bl], "grid": kind, "scalars": False, "mutated": False})
     for n in (ot.LADDER_QUICK[:5] if tier == "quick" else ot.LADDER_THOROUGH[:-1]):
         for tf in (True, False):
